@@ -69,7 +69,9 @@ def run(ctx):
         ctx.missing("C16.route", "GenericPolygon::with_rings")
         return
     fwr = wr[0]
-    ps, _ = util.run_fn(F, fwr)
+    closers = [g["def"] for g in F.identity_fns() if g["argc"] == 1 and "PolygonRing" in g["def"] and g["kind"] == "AssocFn"
+               and g["locals"][1]["ty"].startswith("&mut ")]
+    ps, _ = util.run_fn(F, fwr, inline=lambda g, t: g["def"] not in closers)
     good = bool(ps)
     why = []
     closer = None
@@ -78,6 +80,29 @@ def run(ctx):
             continue
         cons_i = [i for i, e in enumerate(p.eff) if e[0] == 'consume' and e[1] == 'for_each']
         loops_i = [i for i, e in enumerate(p.eff) if e[0] == 'loop']
+        if not cons_i:
+            # the same pass written as a loop: `for ring in rings.iter_mut() { closer(ring) }` before anything else
+            lp = p.eff[loops_i[0]] if loops_i else None
+            okloop = False
+            if lp is not None:
+                it = lp[2].get('iter')
+                whole = it is not None and it[0] == 'iter' and it[2] == 'mut' and 'range' not in str(it[1]) and 'skip' not in str(it)
+                cl = set()
+                for b in lp[3]:
+                    for e2 in b['eff']:
+                        if e2[0] == 'call' and e2[3] and e2[3][0][0] in ('elemref', 'elem'):
+                            cl.add(e2[2] or e2[1])
+                if whole and len(cl) == 1:
+                    closer = cl.pop()
+                    okloop = True
+                    if len(loops_i) > 1 and False:
+                        pass
+            if not okloop:
+                good = False
+                why.append("no pass over all rings that hands each ring to one closing/orienting function before the box is folded")
+            if not is_agg(p.ret) or agg_field(p.ret, 'rings') is None:
+                good = False
+            continue
         if len(cons_i) != 1:
             good = False
             why.append("%d for_each passes over the rings" % len(cons_i))
@@ -163,12 +188,13 @@ def run(ctx):
                 why_c.append("pushes %s onto %s" % (absint.term_str(e[2]), absint.path_str(e[1])))
         for i, e in revs:
             pth = e[2]
-            whole = pth[0] == SELF and len(pth[1]) == 2 and pth[1][0][0] == 'v' and pth[1][1] == ('f', '0')
+            whole = pth[0] == SELF and ((len(pth[1]) == 2 and pth[1][0][0] == 'v' and pth[1][1] == ('f', '0')) or
+                                        pth[1] == (('vp', '0'),))
             if e[1] != 'reverse' or not whole:
                 eff_ok = False
                 why_e.append("%s on %s" % (e[1], absint.path_str(pth)))
         others = [e for e in p.eff if e[0] == 'store' and not any(e[1] == x[1][1] for x in pushes) and
-                  not any(e[1] == x[1][2] for x in revs) and e[1] != payload]
+                  not any(e[1] == x[1][2] for x in revs) and e[1] != payload and e[1] != (SELF, (('vp', '0'),))]
         if others:
             eff_ok = False
             why_e.append("other stores: %s" % [absint.path_str(e[1]) for e in others][:2])
